@@ -13,17 +13,21 @@ import Cx.Proofs.Utf8
         CharClassSearcher.findAllIndices_eq_loop 1 ≤ minMatch → findAllIndices = stdlib FindAll loop over searchAt
         CharClassSearcher.count_eq_length       count = (findAllIndices).length
         ccFind_some_iff / ccFind_none_iff / le_runLen_iff / runLen_maximal      declarative reading of the spec
-        isSimpleCharClassPlus_fragment, charClassSearcher_exact (hyp. `greedy`), charClassSearcher_eq_reference
+        isSimpleCharClassPlus_fragment, isSimpleCharClassPlus_greedy, charClassSearcher_exact,
+        charClassSearcher_eq_reference          (no hypothesis beyond acceptance: `greedy` is derived)
         refFind_plus_eq_ccFind                  ccFind = general reference matcher on greedy ASCII `cls+`
   (2) CompositeSearcher  (nfa/composite.go)
         CompositeSearcher.matchFrom_eq / searchAt_eq_spec (parts ≠ []) / isMatch_eq
         refMatch_some_iff, compFind_some_iff, compFind_none_iff    spec = lexicographically greatest valid count tuple
-        isCompositeCharClassPattern_fragment, compositeSearcher_exact (hyps. `greedy`, `noZeroMax`)
+        isCompositeCharClassPattern_fragment / _greedy / _noZeroMax / _lastAscii / _ascii (the last needs `ClassSorted`)
+        compositeSearcher_exact                 (no hypothesis beyond acceptance: `greedy`, `noZeroMax` are derived)
         refFind_composite_eq_compFind           compFind (greedy AND lazy parts) = general reference matcher on ASCII classes
-        compositeSearcher_eq_reference          (hyps. `greedy`, `noZeroMax`, `ascii`, `repOK`)
+        compositeSearcher_eq_reference          (hyps. `repOK`, `sorted`: parser invariants; `ascii` is derived)
   (3) anchored literal   (meta/anchored_literal.go)
-        matchAnchoredLiteral_iff_spec / _eq_spec / anchoredFindAt_eq_spec / anchoredIsMatch_eq  (hyps. `WF`, `dotMatchesAll`)
-        detectAnchoredLiteral_fragment, detectAnchoredLiteral_wf, anchoredLiteral_exact
+        matchAnchoredLiteral_iff_spec / _eq_spec / anchoredFindAt_eq_spec / anchoredIsMatch_eq  (hyp. `WF`; `.` as the
+                                                `info` says — the matcher checks the wildcard span, `wildcardOK_iff`)
+        detectAnchoredLiteral_fragment (case-sensitive literals, ASCII-tested bridge), detectAnchoredLiteral_wf,
+        anchoredFrag_wildcardNL, anchoredLiteral_exact   (no hypothesis beyond detection)
   (4) BranchDispatcher   (nfa/branch_dispatch.go)
         BranchDispatcher.isMatch_eq, BranchDispatcher.search_eq_spec (hyp. `WF`), branchDispatcher_exact (hyp. `bdFrag`)
   (5) ExtractFirstBytes  (nfa/firstbytes.go)
@@ -654,27 +658,30 @@ theorem extractCharClassRanges_fragment (re : Re) (ranges : List (Nat × Nat))
   · exact nomatch hx
   · rename_i hop
     split at hx
-    · rename_i sub hsub
+    · exact nomatch hx
+    · rename_i hgr
       split at hx
-      · exact nomatch hx
-      · rename_i hcc
+      · rename_i sub hsub
         split at hx
         · exact nomatch hx
-        · simp only [] at hx
+        · rename_i hcc
           split at hx
           · exact nomatch hx
-          · rename_i hany
+          · simp only [] at hx
             split at hx
             · exact nomatch hx
-            · rename_i hne
-              cases hx
-              refine ⟨by simpa using hop, ⟨sub, hsub, by simpa using hcc, rfl⟩, ?_, ?_⟩
-              · intro hnil; rw [hnil] at hne; exact hne rfl
-              · intro r hr
-                simp only [List.any_eq_true, Bool.or_eq_true, decide_eq_true_eq, not_exists, not_and, not_or] at hany
-                have := hany r hr
-                omega
-    · exact nomatch hx
+            · rename_i hany
+              split at hx
+              · exact nomatch hx
+              · rename_i hne
+                cases hx
+                refine ⟨by simpa using hop, by simpa using hgr, ⟨sub, hsub, by simpa using hcc, rfl⟩, ?_, ?_⟩
+                · intro hnil; rw [hnil] at hne; exact hne rfl
+                · intro r hr
+                  simp only [List.any_eq_true, Bool.or_eq_true, decide_eq_true_eq, not_exists, not_and, not_or] at hany
+                  have := hany r hr
+                  omega
+      · exact nomatch hx
 
 theorem isSimpleCharClassPlus_fragment (re : Re) (hok : isSimpleCharClassPlus re = true) :
     ∃ ranges, extractCharClassRanges re = some ranges ∧ IsCharClassPlus re ranges := by
@@ -682,6 +689,11 @@ theorem isSimpleCharClassPlus_fragment (re : Re) (hok : isSimpleCharClassPlus re
   cases hx : extractCharClassRanges re with
   | none => rw [hx] at hok; exact nomatch hok
   | some ranges => exact ⟨ranges, rfl, extractCharClassRanges_fragment re ranges hx⟩
+
+/-- **`IsSimpleCharClassPlus` only accepts greedy quantifiers** (the NonGreedy test of `ExtractCharClassRanges`) -/
+theorem isSimpleCharClassPlus_greedy (re : Re) (hok : isSimpleCharClassPlus re = true) : re.nonGreedy = false := by
+  obtain ⟨_, _, hf⟩ := isSimpleCharClassPlus_fragment re hok
+  exact hf.2.1
 
 /-- what meta builds: always `minMatch = 1` -/
 theorem buildCharClassSearcher_eq (re : Re) (ranges : List (Nat × Nat))
@@ -692,16 +704,17 @@ theorem buildCharClassSearcher_eq (re : Re) (ranges : List (Nat × Nat))
   unfold buildCharClassSearcher
   rw [hx, Option.map_some, if_neg hns]
 
-/-- **AST-level exactness of the CharClassSearcher strategy**: on every pattern `IsSimpleCharClassPlus` accepts whose
-    `+` is GREEDY, the searcher meta builds computes the leftmost-first match of `cls+`. -/
-theorem charClassSearcher_exact (re : Re) (hok : isSimpleCharClassPlus re = true) (greedy : re.nonGreedy = false) :
+/-- **AST-level exactness of the CharClassSearcher strategy**: on EVERY pattern `IsSimpleCharClassPlus` accepts, the
+    searcher meta builds computes the leftmost-first match of the pattern (`plusFind` reads the `NonGreedy` flag of the
+    AST; acceptance implies the flag is clear, `isSimpleCharClassPlus_greedy`). -/
+theorem charClassSearcher_exact (re : Re) (hok : isSimpleCharClassPlus re = true) :
     ∃ ranges, IsCharClassPlus re ranges ∧
       buildCharClassSearcher re = some (CharClassSearcher.new ranges 1) ∧
       ∀ h a, (CharClassSearcher.new ranges 1).searchAt h a
               = plusFind re.nonGreedy (CharClassSearcher.new ranges 1).mem h a := by
   obtain ⟨ranges, hx, hf⟩ := isSimpleCharClassPlus_fragment re hok
   refine ⟨ranges, hf, buildCharClassSearcher_eq re ranges hx, fun h a => ?_⟩
-  rw [greedy, CharClassSearcher.searchAt_eq_spec _ (Nat.le_refl 1) h a]
+  rw [hf.2.1, CharClassSearcher.searchAt_eq_spec _ (Nat.le_refl 1) h a]
   rfl
 
 /-- the table built from `ranges` is the class: byte `b` is a member iff it lies in one of the ranges -/
@@ -1063,25 +1076,107 @@ theorem mapM_option_nil {α β : Type} (f : α → Option β) : ([] : List α).m
 
 /-! ### `IsCompositeCharClassPattern` ⇒ fragment, exactness at the AST level -/
 
-theorem isValidCompositePart_frag (x : Re) (hv : isValidCompositePart x = true) : QuantClass x := by
+theorem compositePartClass_of_quant (x : Re) (hq : QuantClass x) :
+    ∃ cc, compositePartClass x = some cc ∧ cc.rune = classRunes x := by
+  unfold compositePartClass classRunes
+  rcases hq with h | ⟨hop, c, hc, hcc⟩
+  · exact ⟨x, by rw [if_pos h], by rw [if_pos h]⟩
+  · have hn : ¬ x.op = .charClass := by
+      rcases hop with h | h | h | h <;> rw [h] <;> exact fun hc => nomatch hc
+    refine ⟨c, ?_, ?_⟩
+    · rw [if_neg hn, hc]; simp [hcc]
+    · rw [if_neg hn, hc]
+
+/-- everything `isValidCompositePart` checks: the shape, and the three exclusions added by the fix
+    (non-greedy quantifier, `{…,0}`, last class rune above U+007F) -/
+theorem isValidCompositePart_props (x : Re) (hv : isValidCompositePart x = true) :
+    QuantClass x ∧ x.nonGreedy = false ∧ (x.op = .repeat_ → x.max ≠ 0) ∧
+      lastRuneAbove7F (classRunes x) = false := by
   unfold isValidCompositePart at hv
-  unfold QuantClass
-  cases hop : x.op <;> rw [hop] at hv <;> simp only [] at hv <;>
-    first
-    | exact absurd hv (by decide)
-    | exact Or.inl rfl
-    | (right
-       split at hv
-       · rename_i c hsub
-         exact ⟨by simp, c, hsub, by simpa using hv⟩
-       · exact absurd hv (by decide))
+  by_cases hgr : x.nonGreedy = true
+  · rw [if_pos hgr] at hv; exact nomatch hv
+  · rw [if_neg hgr] at hv
+    by_cases hzero : x.op = .repeat_ ∧ x.max = 0
+    · rw [if_pos hzero] at hv; exact nomatch hv
+    · rw [if_neg hzero] at hv
+      by_cases hcls : compositePartNonAscii x = true
+      · rw [if_pos hcls] at hv; exact nomatch hv
+      · rw [if_neg hcls] at hv
+        have hq : QuantClass x := by
+          unfold QuantClass
+          cases hop : x.op <;> rw [hop] at hv <;> simp only [] at hv <;>
+            first
+            | exact absurd hv (by decide)
+            | exact Or.inl rfl
+            | (right
+               split at hv
+               · rename_i c hsub
+                 exact ⟨by simp, c, hsub, by simpa using hv⟩
+               · exact absurd hv (by decide))
+        refine ⟨hq, by simpa using hgr, fun hop hmax => hzero ⟨hop, hmax⟩, ?_⟩
+        obtain ⟨cc, hcc, hrune⟩ := compositePartClass_of_quant x hq
+        unfold compositePartNonAscii at hcls
+        rw [hcc] at hcls
+        simp only [] at hcls
+        rw [← hrune]
+        simpa using hcls
+
+theorem isValidCompositePart_frag (x : Re) (hv : isValidCompositePart x = true) : QuantClass x :=
+  (isValidCompositePart_props x hv).1
+
+theorem isCompositeCharClassPattern_parts (re : Re) (hok : isCompositeCharClassPattern re = true) :
+    ∀ x ∈ re.sub, isValidCompositePart x = true := by
+  unfold isCompositeCharClassPattern at hok
+  simp only [Bool.and_eq_true, decide_eq_true_eq, List.all_eq_true] at hok
+  exact hok.2
 
 /-- **`IsCompositeCharClassPattern` implies the fragment** -/
 theorem isCompositeCharClassPattern_fragment (re : Re) (hok : isCompositeCharClassPattern re = true) :
     CompositeFrag re := by
+  have hparts := isCompositeCharClassPattern_parts re hok
   unfold isCompositeCharClassPattern at hok
   simp only [Bool.and_eq_true, decide_eq_true_eq, List.all_eq_true] at hok
-  exact ⟨hok.1.1, hok.1.2, fun x hx => isValidCompositePart_frag x (hok.2 x hx)⟩
+  exact ⟨hok.1.1, hok.1.2, fun x hx => isValidCompositePart_frag x (hparts x hx)⟩
+
+/-- **`IsCompositeCharClassPattern` only accepts greedy parts** -/
+theorem isCompositeCharClassPattern_greedy (re : Re) (hok : isCompositeCharClassPattern re = true) : AllGreedy re :=
+  fun x hx => (isValidCompositePart_props x (isCompositeCharClassPattern_parts re hok x hx)).2.1
+
+/-- **`IsCompositeCharClassPattern` accepts no `{…,0}` part** -/
+theorem isCompositeCharClassPattern_noZeroMax (re : Re) (hok : isCompositeCharClassPattern re = true) : NoZeroMax re :=
+  fun x hx => (isValidCompositePart_props x (isCompositeCharClassPattern_parts re hok x hx)).2.2.1
+
+/-- what the Go test literally establishes: the LAST rune of every part's class is `≤ 0x7F` -/
+theorem isCompositeCharClassPattern_lastAscii (re : Re) (hok : isCompositeCharClassPattern re = true) :
+    ∀ x ∈ re.sub, lastRuneAbove7F (classRunes x) = false :=
+  fun x hx => (isValidCompositePart_props x (isCompositeCharClassPattern_parts re hok x hx)).2.2.2
+
+theorem le_of_sorted_getLast (l : List Nat) (hs : l.Pairwise (· ≤ ·)) (m : Nat) (hl : l.getLast? = some m) :
+    ∀ r ∈ l, r ≤ m := by
+  obtain ⟨l1, rfl⟩ := List.getLast?_eq_some_iff.mp hl
+  intro r hr
+  rcases List.mem_append.mp hr with hr | hr
+  · exact (List.pairwise_append.mp hs).2.2 r hr m (by simp)
+  · have : r = m := by simpa using hr
+    omega
+
+/-- for a sorted `Rune` (parser invariant) the last-rune test is "every member is ASCII" -/
+theorem all_ascii_of_sorted (l : List Nat) (hs : l.Pairwise (· ≤ ·)) (hl : lastRuneAbove7F l = false) :
+    ∀ r ∈ l, r ≤ 127 := by
+  intro r hr
+  unfold lastRuneAbove7F at hl
+  cases hg : l.getLast? with
+  | none => rw [List.getLast?_eq_none_iff] at hg; subst hg; exact nomatch hr
+  | some m =>
+    rw [hg] at hl
+    simp only [decide_eq_false_iff_not] at hl
+    have := le_of_sorted_getLast l hs m hg r hr
+    omega
+
+/-- **`IsCompositeCharClassPattern` only accepts ASCII classes** (on parser output: `Rune` sorted) -/
+theorem isCompositeCharClassPattern_ascii (re : Re) (hok : isCompositeCharClassPattern re = true)
+    (sorted : ClassSorted re) : AsciiOnly re :=
+  fun x hx => all_ascii_of_sorted _ (sorted x hx) (isCompositeCharClassPattern_lastAscii re hok x hx)
 
 theorem QuantClass.astPart_isSome {x : Re} (hq : QuantClass x) : (astPart x).isSome = true := by
   unfold astPart
@@ -1180,12 +1275,18 @@ theorem extractParts_astParts (subs : List Re) (ps : List CharClassPart)
 
 end
 
-/-- **AST-level exactness of the CompositeSearcher**: for every pattern from which `NewCompositeSearcher` builds a
-    searcher, whose quantifiers are all GREEDY and none of which is `{…,0}`, `SearchAt` is the leftmost-first match of
-    the concatenation (classes read as byte sets — adequate when `AsciiOnly re`). -/
-theorem compositeSearcher_exact (re : Re) (c : CompositeSearcher) (hc : newCompositeSearcher re = some c)
-    (greedy : AllGreedy re) (noZeroMax : NoZeroMax re) :
-    CompositeFrag re ∧ ∃ parts, astParts re = some parts ∧ ∀ h a, c.searchAt h a = compFind parts h a := by
+/-- **AST-level exactness of the CompositeSearcher**: for EVERY pattern `IsCompositeCharClassPattern` accepts (that is
+    what selects the strategy) and from which `NewCompositeSearcher` builds the searcher, `SearchAt` is the
+    leftmost-first match of the concatenation (classes read as byte sets — adequate when `AsciiOnly re`, which the
+    predicate guarantees on parser output, `isCompositeCharClassPattern_ascii`).  That the quantifiers are greedy and
+    none is `{…,0}` is no longer assumed: it follows from acceptance. -/
+theorem compositeSearcher_exact (re : Re) (c : CompositeSearcher) (hok : isCompositeCharClassPattern re = true)
+    (hc : newCompositeSearcher re = some c) :
+    CompositeFrag re ∧ AllGreedy re ∧ NoZeroMax re ∧
+      ∃ parts, astParts re = some parts ∧ ∀ h a, c.searchAt h a = compFind parts h a := by
+  have greedy := isCompositeCharClassPattern_greedy re hok
+  have noZeroMax := isCompositeCharClassPattern_noZeroMax re hok
+  refine ⟨isCompositeCharClassPattern_fragment re hok, greedy, noZeroMax, ?_⟩
   unfold newCompositeSearcher at hc
   cases hx : extractCompositeParts re with
   | none => rw [hx] at hc; exact nomatch hc
@@ -1204,7 +1305,7 @@ theorem compositeSearcher_exact (re : Re) (c : CompositeSearcher) (hc : newCompo
         · rename_i hlen
           cases hx
           obtain ⟨hq, ha, hl⟩ := extractParts_astParts re.sub ps hm greedy noZeroMax
-          refine ⟨⟨by simpa using hop, by omega, hq⟩, ps.map partOf, ha, fun h a => ?_⟩
+          refine ⟨ps.map partOf, ha, fun h a => ?_⟩
           apply CompositeSearcher.searchAt_eq_spec
           intro hnil
           have hnil : ps = [] := hnil
@@ -1311,11 +1412,27 @@ structure AnchoredLiteralInfo.WF (info : AnchoredLiteralInfo) : Prop where
   minLength_eq : info.minLength = info.pfx.size + info.wildcardMin + info.charClassMin + info.sfx.size
   noTable : info.charClassTable = none → info.charClassMin = 0
 
-/-- **`MatchAnchoredLiteral` is exact** for `\\A prefix .{w,} cls{c,} suffix \\z` whenever `.` may match every byte that
-    occurs (the pattern is `(?s)`, or the haystack contains no `\\n`). -/
-theorem matchAnchoredLiteral_iff_spec (info : AnchoredLiteralInfo) (wf : info.WF) (dotNL : Bool) (h : Bytes)
-    (dotMatchesAll : dotNL = true ∨ ∀ i, i < h.size → h.at i ≠ 10) :
-    matchAnchoredLiteral h info = true ↔ AnchoredSpec dotNL info h := by
+theorem noByteIn_iff (c : Nat) (h : Bytes) (lo hi : Nat) :
+    noByteIn c h lo hi = true ↔ ∀ i, lo ≤ i → i < hi → h.at i ≠ c := by
+  unfold noByteIn
+  simp only [List.all_eq_true, List.mem_range'_1, decide_eq_true_eq]
+  constructor
+  · intro hall i h1 h2; exact hall i ⟨h1, by omega⟩
+  · intro hall i hi; exact hall i hi.1 (by omega)
+
+/-- `wildcardOK` on `input[lo:hi]`: the wildcard is `(?s:.)`, or the span holds no `\n` -/
+theorem wildcardOK_iff (info : AnchoredLiteralInfo) (h : Bytes) (lo hi : Nat) :
+    info.wildcardOK h lo hi = true ↔
+      (info.wildcardMatchesNewline = true ∨ ∀ i, lo ≤ i → i < hi → h.at i ≠ 10) := by
+  unfold AnchoredLiteralInfo.wildcardOK
+  rw [Bool.or_eq_true, noByteIn_iff]
+
+/-- **`MatchAnchoredLiteral` is exact** for `\\A prefix .{w,} cls{c,} suffix \\z` on EVERY haystack: `.` is read as the
+    `info` says (`WildcardMatchesNewline`: any byte; otherwise any byte but `\\n`).  With a class bridge the matcher
+    tests the SHORTEST possible wildcard span (the class run it found is the longest), which is free of `\\n` iff some
+    admissible split is. -/
+theorem matchAnchoredLiteral_iff_spec (info : AnchoredLiteralInfo) (wf : info.WF) (h : Bytes) :
+    matchAnchoredLiteral h info = true ↔ AnchoredSpec info.wildcardMatchesNewline info h := by
   have hml := wf.minLength_eq
   unfold matchAnchoredLiteral AnchoredSpec
   by_cases hlen : h.size < info.minLength
@@ -1361,26 +1478,34 @@ theorem matchAnchoredLiteral_iff_spec (info : AnchoredLiteralInfo) (wf : info.WF
         cases ht : info.charClassTable with
         | none =>
           have hc0 := wf.noTable ht
-          simp only [decide_eq_true_eq, ge_iff_le]
+          simp only [Bool.and_eq_true, decide_eq_true_eq, ge_iff_le, wildcardOK_iff]
           constructor
-          · intro _
+          · rintro ⟨_, hok⟩
             exact ⟨h.size - info.sfx.size, h.size - info.sfx.size, by omega, Nat.le_refl _, by omega,
-              hpfx.mp hp, hsfx.mp hs, dotMatchesAll.imp id (fun hall i _ hi => hall i (by omega)), rfl⟩
-          · rintro ⟨j, k, h1, h2, hk, _, h4, _, h6⟩
+              hpfx.mp hp, hsfx.mp hs, hok, rfl⟩
+          · rintro ⟨j, k, h1, h2, hk, _, h4, h5, h6⟩
             have := hkq k hk h4
-            omega
+            have hjk : j = k := h6
+            subst hjk
+            subst this
+            exact ⟨by omega, h5⟩
         | some t =>
-          simp only [decide_eq_true_eq, ge_iff_le]
-          rw [le_countBack_iff t h _ _ _ (by omega)]
+          simp only [Bool.and_eq_true, decide_eq_true_eq, ge_iff_le, wildcardOK_iff]
+          have hcb := le_countBack_iff t h (h.size - info.sfx.size - (info.pfx.size + info.wildcardMin))
+            (h.size - info.sfx.size)
+          generalize countBack t h (h.size - info.sfx.size - (info.pfx.size + info.wildcardMin))
+            (h.size - info.sfx.size) = found at hcb ⊢
+          obtain ⟨hfle, hfall⟩ := (hcb found (by omega)).mp (Nat.le_refl _)
           constructor
-          · rintro ⟨hc1, hc2⟩
-            exact ⟨h.size - info.sfx.size - info.charClassMin, h.size - info.sfx.size, by omega, by omega, by omega,
-              hpfx.mp hp, hsfx.mp hs, dotMatchesAll.imp id (fun hall i _ hi => hall i (by omega)),
-              by omega, fun i hi1 hi2 => hc2 i hi1 hi2⟩
-          · rintro ⟨j, k, h1, h2, hk, _, h4, _, h6⟩
+          · rintro ⟨hc1, hok⟩
+            exact ⟨h.size - info.sfx.size - found, h.size - info.sfx.size, by omega, by omega, by omega,
+              hpfx.mp hp, hsfx.mp hs, hok, by omega, fun i hi1 hi2 => hfall i hi1 hi2⟩
+          · rintro ⟨j, k, h1, h2, hk, _, h4, h5, h6⟩
             have hk' := hkq k hk h4
             subst hk'
-            exact ⟨by omega, fun i hi1 hi2 => h6.2 i (by omega) hi2⟩
+            have hkj : h.size - info.sfx.size - j ≤ found :=
+              (hcb _ (by omega)).mpr ⟨by omega, fun i hi1 hi2 => h6.2 i (by omega) hi2⟩
+            exact ⟨by omega, h5.imp id (fun hall i hi1 hi2 => hall i hi1 (by omega))⟩
       · rw [if_pos (by simpa using hs)]
         constructor
         · intro hc; exact nomatch hc
@@ -1409,10 +1534,9 @@ theorem matchAnchoredLiteral_iff_spec (info : AnchoredLiteralInfo) (wf : info.WF
         exact absurd (hpfx.mpr h3) hp
 
 /-- Bool form: the matcher IS the executable specification -/
-theorem matchAnchoredLiteral_eq_spec (info : AnchoredLiteralInfo) (wf : info.WF) (dotNL : Bool) (h : Bytes)
-    (dotMatchesAll : dotNL = true ∨ ∀ i, i < h.size → h.at i ≠ 10) :
-    matchAnchoredLiteral h info = anchoredSpecB dotNL info h := by
-  rw [Bool.eq_iff_iff, anchoredSpecB_iff, matchAnchoredLiteral_iff_spec info wf dotNL h dotMatchesAll]
+theorem matchAnchoredLiteral_eq_spec (info : AnchoredLiteralInfo) (wf : info.WF) (h : Bytes) :
+    matchAnchoredLiteral h info = anchoredSpecB info.wildcardMatchesNewline info h := by
+  rw [Bool.eq_iff_iff, anchoredSpecB_iff, matchAnchoredLiteral_iff_spec info wf h]
 
 /-- `IsMatch` (= `MatchAnchoredLiteral`) agrees with the `Find` wrapper meta uses -/
 theorem anchoredIsMatch_eq (info : AnchoredLiteralInfo) (h : Bytes) :
@@ -1422,11 +1546,10 @@ theorem anchoredIsMatch_eq (info : AnchoredLiteralInfo) (h : Bytes) :
   cases matchAnchoredLiteral h info <;> rfl
 
 /-- meta's `findIndicesAnchoredLiteralAt` -/
-theorem anchoredFindAt_eq_spec (info : AnchoredLiteralInfo) (wf : info.WF) (dotNL : Bool) (h : Bytes) (a : Nat)
-    (dotMatchesAll : dotNL = true ∨ ∀ i, i < h.size → h.at i ≠ 10) :
-    anchoredFindAt h info a = anchoredFindSpec dotNL info h a := by
+theorem anchoredFindAt_eq_spec (info : AnchoredLiteralInfo) (wf : info.WF) (h : Bytes) (a : Nat) :
+    anchoredFindAt h info a = anchoredFindSpec info.wildcardMatchesNewline info h a := by
   unfold anchoredFindAt anchoredFindSpec anchoredFind
-  rw [matchAnchoredLiteral_eq_spec info wf dotNL h dotMatchesAll]
+  rw [matchAnchoredLiteral_eq_spec info wf h]
   by_cases ha : a > 0
   · rw [if_pos ha, if_neg (by omega)]
   · rw [if_neg ha]
@@ -1437,13 +1560,16 @@ theorem anchoredFindAt_eq_spec (info : AnchoredLiteralInfo) (wf : info.WF) (dotN
 /-! ### `DetectAnchoredLiteral` ⇒ fragment and well-formed info -/
 
 theorem extractLiteral_some (x : Re) (b : Bytes) (hx : extractLiteral x = some b) :
-    x.op = .literal ∧ b = (litBytes x).toArray := by
+    x.op = .literal ∧ x.foldCase = false ∧ b = (litBytes x).toArray := by
   unfold extractLiteral at hx
   split at hx
   · exact nomatch hx
   · rename_i hop
-    cases hx
-    exact ⟨by simpa using hop, rfl⟩
+    split at hx
+    · exact nomatch hx
+    · rename_i hfold
+      cases hx
+      exact ⟨by simpa using hop, by simpa using hfold, rfl⟩
 
 theorem isCharClassPlus_shape (b : Re) (hb : isCharClassPlus b = true) :
     b.op = .plus ∧ ∃ cc, b.sub = [cc] ∧ cc.op = .charClass := by
@@ -1456,15 +1582,15 @@ theorem isCharClassPlus_shape (b : Re) (hb : isCharClassPlus b = true) :
       exact ⟨by simpa using hop, cc, hsub, by simpa using hb⟩
     · exact nomatch hb
 
-/-- the optional bridge after the wildcard: nothing, or exactly one `cls+` -/
+/-- the optional bridge after the wildcard: nothing, or exactly one `cls+` whose last rune is ASCII -/
 def BridgeShape (bridge : List Re) (st st' : DetectState) : Prop :=
   (bridge = [] ∧ st' = st) ∨
-  (∃ b cc, bridge = [b] ∧ b.op = .plus ∧ b.sub = [cc] ∧ cc.op = .charClass ∧
+  (∃ b cc, bridge = [b] ∧ b.op = .plus ∧ b.sub = [cc] ∧ cc.op = .charClass ∧ lastRuneAbove7F cc.rune = false ∧
      st' = { st with table := some (tableOfRangesClamped (pairs cc.rune)), charClassMin := 1 })
 
 theorem detectLoop_after (rest : List Re) (st st' : DetectState) (hw : st.wildcardSeen = true)
     (hd : detectLoop rest st = some st') : BridgeShape rest st st' := by
-  obtain ⟨pfx, ws, wm, tb, cm⟩ := st
+  obtain ⟨pfx, ws, wm, wnl, tb, cm⟩ := st
   simp only at hw
   subst hw
   cases rest with
@@ -1482,20 +1608,24 @@ theorem detectLoop_after (rest : List Re) (st st' : DetectState) (hw : st.wildca
         obtain ⟨hop, cc, hsub, hcc⟩ := isCharClassPlus_shape b hb
         rw [hsub] at hd
         simp only [] at hd
-        rw [detectLoop] at hd
-        cases hd
-        right
-        refine ⟨b, cc, rfl, hop, hsub, hcc, ?_⟩
-        unfold buildCharClassTable
-        rw [if_neg (by rw [hcc]; exact fun hc => hc rfl)]
+        split at hd
+        · exact nomatch hd
+        · rename_i hlast
+          rw [detectLoop] at hd
+          cases hd
+          right
+          refine ⟨b, cc, rfl, hop, hsub, hcc, by simpa using hlast, ?_⟩
+          unfold buildCharClassTable
+          rw [if_neg (by rw [hcc]; exact fun hc => hc rfl)]
       · exact nomatch hd
 
 theorem detectLoop_shape (mid : List Re) :
     ∀ st st', detectLoop mid st = some st' → st.wildcardSeen = false → st'.wildcardSeen = true →
-      ∃ lits w bridge, mid = lits ++ w :: bridge ∧ (∀ x ∈ lits, x.op = .literal) ∧ isGreedyWildcard w = true ∧
+      ∃ lits w bridge, mid = lits ++ w :: bridge ∧ (∀ x ∈ lits, x.op = .literal ∧ x.foldCase = false) ∧
+        isGreedyWildcard w = true ∧
         BridgeShape bridge
           { st with pfx := st.pfx ++ (lits.flatMap litBytes).toArray, wildcardSeen := true,
-                    wildcardMin := getWildcardMin w } st' := by
+                    wildcardMin := getWildcardMin w, wildcardNL := wildcardIsDotNL w } st' := by
   induction mid with
   | nil =>
     intro st st' hd hw hw'
@@ -1503,7 +1633,7 @@ theorem detectLoop_shape (mid : List Re) :
     rw [hw] at hw'; exact nomatch hw'
   | cons x mid ih =>
     intro st st' hd hw hw'
-    obtain ⟨pfx, ws, wm, tb, cm⟩ := st
+    obtain ⟨pfx, ws, wm, wnl, tb, cm⟩ := st
     simp only at hw
     subst hw
     rw [detectLoop] at hd
@@ -1519,12 +1649,12 @@ theorem detectLoop_shape (mid : List Re) :
       | some lit =>
         rw [hl] at hd
         simp only [] at hd
-        obtain ⟨hop, hlit⟩ := extractLiteral_some x lit hl
+        obtain ⟨hop, hfold, hlit⟩ := extractLiteral_some x lit hl
         obtain ⟨lits, w, bridge, hmid, hlits, hwild, hbr⟩ := ih _ st' hd rfl hw'
         refine ⟨x :: lits, w, bridge, by rw [hmid]; rfl, ?_, hwild, ?_⟩
         · intro y hy
           rcases List.mem_cons.mp hy with rfl | hy
-          · exact hop
+          · exact ⟨hop, hfold⟩
           · exact hlits y hy
         · simp only [List.flatMap_cons]
           rw [hlit] at hbr
@@ -1542,7 +1672,9 @@ theorem list_split_last2 {α : Type} (l : List α) (x y : α) (hl : l.getLast? =
   rw [List.dropLast_concat]
   simp
 
-/-- **`DetectAnchoredLiteral` implies the fragment** (and determines every field of the result) -/
+/-- **`DetectAnchoredLiteral` implies the fragment** (and determines every field of the result): in particular every
+    literal is case-sensitive, the bridge class passes the ASCII test, and `WildcardMatchesNewline` says whether the
+    wildcard is `(?s:.)`. -/
 theorem detectAnchoredLiteral_fragment (re : Re) (info : AnchoredLiteralInfo)
     (hd : detectAnchoredLiteral re = some info) : AnchoredFrag re info := by
   unfold detectAnchoredLiteral at hd
@@ -1576,39 +1708,110 @@ theorem detectAnchoredLiteral_fragment (re : Re) (info : AnchoredLiteralInfo)
                     · exact nomatch hd
                     · rename_i hseen
                       cases hd
-                      obtain ⟨hsop, hsb⟩ := extractLiteral_some sfxRe sfx hsfx
+                      obtain ⟨hsop, hsfold, hsb⟩ := extractLiteral_some sfxRe sfx hsfx
                       obtain ⟨lits, w, bridge, hmid, hlits, hwild, hbr⟩ :=
                         detectLoop_shape _ {} st hst rfl (by simpa using hseen)
                       refine ⟨by simpa using hop, first, lits, w, bridge, sfxRe, last, ?_, by simpa using hfirst,
-                        by simpa using hlastA, hlits, hwild, hsop, ?_, hsb, ?_, ?_, rfl⟩
+                        by simpa using hlastA, hlits, hwild, ⟨hsop, hsfold⟩, ?_, hsb, ?_, ?_, ?_, rfl⟩
                       · rw [hsub, list_split_last2 tail sfxRe last hlast hsfxRe, hmid]
-                      · rcases hbr with ⟨_, rfl⟩ | ⟨b, cc, _, _, _, _, rfl⟩ <;> simp
-                      · rcases hbr with ⟨_, rfl⟩ | ⟨b, cc, _, _, _, _, rfl⟩ <;> rfl
-                      · rcases hbr with ⟨hb, rfl⟩ | ⟨b, cc, hb, h1, h2, h3, rfl⟩
+                      · rcases hbr with ⟨_, rfl⟩ | ⟨b, cc, _, _, _, _, _, rfl⟩ <;> simp
+                      · rcases hbr with ⟨_, rfl⟩ | ⟨b, cc, _, _, _, _, _, rfl⟩ <;> rfl
+                      · rcases hbr with ⟨_, rfl⟩ | ⟨b, cc, _, _, _, _, _, rfl⟩ <;> rfl
+                      · rcases hbr with ⟨hb, rfl⟩ | ⟨b, cc, hb, h1, h2, h3, h4, rfl⟩
                         · exact Or.inl ⟨hb, rfl, rfl⟩
-                        · exact Or.inr ⟨b, cc, hb, h1, h2, h3, rfl, rfl⟩
+                        · exact Or.inr ⟨b, cc, hb, h1, h2, h3, h4, rfl, rfl⟩
       · exact nomatch hd
 
 theorem detectAnchoredLiteral_wf (re : Re) (info : AnchoredLiteralInfo)
     (hd : detectAnchoredLiteral re = some info) : info.WF := by
-  obtain ⟨_, first, lits, w, bridge, sfxRe, last, _, _, _, _, _, _, _, _, _, hbr, hml⟩ :=
+  obtain ⟨_, first, lits, w, bridge, sfxRe, last, _, _, _, _, _, _, _, _, _, _, hbr, hml⟩ :=
     detectAnchoredLiteral_fragment re info hd
   refine ⟨hml, fun hnone => ?_⟩
-  rcases hbr with ⟨_, _, h0⟩ | ⟨b, cc, _, _, _, _, ht, _⟩
+  rcases hbr with ⟨_, _, h0⟩ | ⟨b, cc, _, _, _, _, _, ht, _⟩
   · exact h0
   · rw [ht] at hnone; exact nomatch hnone
 
-/-- **AST-level exactness of the UseAnchoredLiteral matcher** (byte-level reading of the pattern): for every pattern
-    `DetectAnchoredLiteral` accepts, `MatchAnchoredLiteral` decides `\\A prefix .{w,} cls{c,} suffix \\z` correctly on
-    every haystack in which `.` can match all bytes (pattern is `(?s)` or the haystack has no `\\n`). -/
+/-- on parser output (`Rune` sorted) the bridge class of a detected pattern has ASCII members only -/
+theorem anchoredFrag_bridge_ascii (cc : Re) (hlast : lastRuneAbove7F cc.rune = false)
+    (sorted : cc.rune.Pairwise (· ≤ ·)) : ∀ r ∈ cc.rune, r ≤ 127 :=
+  all_ascii_of_sorted cc.rune sorted hlast
+
+theorem isGreedyWildcard_false_of_op (x : Re) (h1 : x.op ≠ .star) (h2 : x.op ≠ .plus) : isGreedyWildcard x = false := by
+  unfold isGreedyWildcard
+  rw [if_pos ⟨h1, h2⟩]
+
+/-- the body of `wildcardDotNL` -/
+def dotBody (w : Re) : Bool :=
+  isGreedyWildcard w && (match w.sub with | [x] => decide (x.op = .anyChar) | _ => false)
+
+theorem wildcardDotNL_def (re : Re) : wildcardDotNL re = re.sub.any dotBody := rfl
+
+theorem dotBody_false (x : Re) (hx : isGreedyWildcard x = false) : dotBody x = false := by
+  unfold dotBody; rw [hx]; rfl
+
+theorem dotBody_wild (w : Re) (hwild : isGreedyWildcard w = true) : dotBody w = wildcardIsDotNL w := by
+  unfold dotBody
+  rw [hwild, Bool.true_and]
+  unfold isGreedyWildcard at hwild
+  unfold wildcardIsDotNL
+  split at hwild
+  · exact nomatch hwild
+  · split at hwild
+    · rename_i y hy; rw [hy]
+    · exact nomatch hwild
+
+/-- the flag the matcher consults IS the AST-level reading "the pattern's wildcard is `(?s:.)`" -/
+theorem anchoredFrag_wildcardNL (re : Re) (info : AnchoredLiteralInfo) (hf : AnchoredFrag re info) :
+    info.wildcardMatchesNewline = wildcardDotNL re := by
+  obtain ⟨_, first, lits, w, bridge, sfxRe, last, hsub, hfirst, hlast, hlits, hwild, hsfx, _, _, _, hnl, hbr, _⟩ := hf
+  have hfirst' : isGreedyWildcard first = false := by
+    unfold isStartAnchor at hfirst
+    simp only [Bool.or_eq_true, decide_eq_true_eq] at hfirst
+    apply isGreedyWildcard_false_of_op <;> rcases hfirst with h | h <;> rw [h] <;> exact fun hc => nomatch hc
+  have hlast' : isGreedyWildcard last = false := by
+    unfold isEndAnchor at hlast
+    simp only [Bool.or_eq_true, decide_eq_true_eq] at hlast
+    apply isGreedyWildcard_false_of_op <;> rcases hlast with h | h <;> rw [h] <;> exact fun hc => nomatch hc
+  have hsfx' : isGreedyWildcard sfxRe = false := by
+    apply isGreedyWildcard_false_of_op <;> rw [hsfx.1] <;> exact fun hc => nomatch hc
+  have hlits' : ∀ x ∈ lits, isGreedyWildcard x = false := by
+    intro x hx
+    apply isGreedyWildcard_false_of_op <;> rw [(hlits x hx).1] <;> exact fun hc => nomatch hc
+  have hbridge : ∀ x ∈ bridge, isGreedyWildcard x = false := by
+    intro x hx
+    rcases hbr with ⟨hb, _⟩ | ⟨b, cc, hb, hbop, hbsub, hcc, _⟩
+    · rw [hb] at hx; exact nomatch hx
+    · rw [hb] at hx
+      have : x = b := by simpa using hx
+      subst this
+      unfold isGreedyWildcard
+      rw [if_neg (by rw [hbop]; exact fun hc => hc.2 rfl), hbsub]
+      simp [hcc]
+  have h1 : lits.any dotBody = false := by
+    rw [List.any_eq_false]
+    intro x hx; rw [dotBody_false x (hlits' x hx)]; exact Bool.false_ne_true
+  have h2 : bridge.any dotBody = false := by
+    rw [List.any_eq_false]
+    intro x hx; rw [dotBody_false x (hbridge x hx)]; exact Bool.false_ne_true
+  rw [wildcardDotNL_def, hnl, hsub]
+  simp only [List.any_cons, List.any_append, List.any_nil, Bool.or_false]
+  rw [dotBody_false first hfirst', dotBody_false sfxRe hsfx', dotBody_false last hlast', dotBody_wild w hwild, h1, h2]
+  simp
+
+/-- **AST-level exactness of the UseAnchoredLiteral matcher** (byte-level reading of the pattern): for EVERY pattern
+    `DetectAnchoredLiteral` accepts and EVERY haystack, `MatchAnchoredLiteral` decides
+    `\\A prefix .{w,} cls{c,} suffix \\z` correctly, `.` excluding `\\n` unless the pattern's wildcard is `(?s:.)`
+    (`wildcardDotNL re`, read off the AST).  The former hypothesis "`.` may match every byte of the haystack" is gone:
+    the matcher now checks the wildcard span itself. -/
 theorem anchoredLiteral_exact (re : Re) (info : AnchoredLiteralInfo) (hd : detectAnchoredLiteral re = some info)
-    (h : Bytes) (dotMatchesAll : wildcardDotNL re = true ∨ ∀ i, i < h.size → h.at i ≠ 10) :
+    (h : Bytes) :
     AnchoredFrag re info ∧
     (matchAnchoredLiteral h info = true ↔ AnchoredSpec (wildcardDotNL re) info h) ∧
-    ∀ a, anchoredFindAt h info a = anchoredFindSpec (wildcardDotNL re) info h a :=
-  ⟨detectAnchoredLiteral_fragment re info hd,
-   matchAnchoredLiteral_iff_spec info (detectAnchoredLiteral_wf re info hd) _ h dotMatchesAll,
-   fun a => anchoredFindAt_eq_spec info (detectAnchoredLiteral_wf re info hd) _ h a dotMatchesAll⟩
+    ∀ a, anchoredFindAt h info a = anchoredFindSpec (wildcardDotNL re) info h a := by
+  have hf := detectAnchoredLiteral_fragment re info hd
+  have hwf := detectAnchoredLiteral_wf re info hd
+  rw [← anchoredFrag_wildcardNL re info hf]
+  exact ⟨hf, matchAnchoredLiteral_iff_spec info hwf h, fun a => anchoredFindAt_eq_spec info hwf h a⟩
 
 /-! ## BranchDispatcher -/
 namespace BranchDispatcher
@@ -3014,13 +3217,13 @@ theorem refFind_plus_eq_ccFind (h : Bytes) (re cc : Re) (hop : re.op = .plus)
   · have : h.size + 1 - a = 0 := by omega
     rw [this, Ref.findLoop, leastFrom_gt _ _ _ (by omega)]; rfl
 
-/-- **CharClassSearcher end to end**: on every pattern `IsSimpleCharClassPlus` accepts whose `+` is greedy, and every
-    haystack, the searcher meta builds returns what the general leftmost-first reference matcher returns. -/
-theorem charClassSearcher_eq_reference (re : Re) (hok : isSimpleCharClassPlus re = true) (greedy : re.nonGreedy = false)
+/-- **CharClassSearcher end to end**: on EVERY pattern `IsSimpleCharClassPlus` accepts, and every haystack and offset,
+    the searcher meta builds returns what the general leftmost-first reference matcher returns. -/
+theorem charClassSearcher_eq_reference (re : Re) (hok : isSimpleCharClassPlus re = true)
     (h : Bytes) (a : Nat) :
     (buildCharClassSearcher re).map (fun s => s.searchAt h a) = some (Ref.refFind re h a) := by
-  obtain ⟨ranges, hfrag, hbuild, hspec⟩ := charClassSearcher_exact re hok greedy
-  obtain ⟨hop, ⟨cc, hsub, hcc, hpairs⟩, _, hascii⟩ := hfrag
+  obtain ⟨ranges, hfrag, hbuild, hspec⟩ := charClassSearcher_exact re hok
+  obtain ⟨hop, greedy, ⟨cc, hsub, hcc, hpairs⟩, _, hascii⟩ := hfrag
   rw [hbuild, Option.map_some, hspec h a, greedy]
   congr 1
   rw [refFind_plus_eq_ccFind h re cc hop hsub greedy hcc (by rw [hpairs]; exact fun p hp => (hascii p hp).2) a,
@@ -3517,16 +3720,24 @@ theorem refFind_composite_eq_compFind (re : Re) (ps : List Part) (hop : re.op = 
   · have : h.size + 1 - a = 0 := by omega
     rw [this, Ref.findLoop, leastFrom_gt _ _ _ (by omega)]; rfl
 
-/-- `{n,m}` bounds are consistent (guaranteed by the parser) -/
+/-- PARSER INVARIANT (not a restriction of the fragment): `{n,m}` bounds are consistent — `syntax.Parse` rejects
+    `x{3,2}` ("invalid repeat count").  Still needed: on a hand-built `x{3,2}` the searcher finds nothing
+    (`tryLen` runs from `≤ 2` down to `≥ 3`) while the reference matcher takes the three mandatory copies and then
+    `max - min` (truncated to 0) optional ones. -/
 def RepeatOK (re : Re) : Prop := ∀ x ∈ re.sub, x.op = .repeat_ → x.max < 0 ∨ x.min ≤ x.max
 
-/-- **CompositeSearcher end to end**: for every pattern from which `NewCompositeSearcher` builds a searcher, whose
-    quantifiers are all greedy, none `{…,0}`, whose classes are ASCII (and whose `{n,m}` are consistent), `SearchAt`
-    returns what the general leftmost-first reference matcher returns — on every haystack and offset. -/
-theorem compositeSearcher_eq_reference (re : Re) (c : CompositeSearcher) (hc : newCompositeSearcher re = some c)
-    (greedy : AllGreedy re) (noZeroMax : NoZeroMax re) (ascii : AsciiOnly re) (repOK : RepeatOK re)
+instance (re : Re) : Decidable (RepeatOK re) := by unfold RepeatOK; exact inferInstance
+
+/-- **CompositeSearcher end to end**: for EVERY pattern `IsCompositeCharClassPattern` accepts, `SearchAt` of the
+    searcher `NewCompositeSearcher` builds returns what the general leftmost-first reference matcher returns — on every
+    haystack and offset.  `greedy` / `noZeroMax` / `ascii` of the previous statement are now consequences of acceptance;
+    the two remaining hypotheses are invariants of `syntax.Parse` output (`RepeatOK`: `n ≤ m` in `{n,m}`;
+    `ClassSorted`: `Rune` ascending — Go tests only the last rune against U+007F). -/
+theorem compositeSearcher_eq_reference (re : Re) (c : CompositeSearcher) (hok : isCompositeCharClassPattern re = true)
+    (hc : newCompositeSearcher re = some c) (repOK : RepeatOK re) (sorted : ClassSorted re)
     (h : Bytes) (a : Nat) : c.searchAt h a = Ref.refFind re h a := by
-  obtain ⟨⟨hop, _, hqc⟩, parts, hparts, hspec⟩ := compositeSearcher_exact re c hc greedy noZeroMax
+  obtain ⟨⟨hop, _, hqc⟩, _, _, parts, hparts, hspec⟩ := compositeSearcher_exact re c hok hc
+  have ascii := isCompositeCharClassPattern_ascii re hok sorted
   rw [hspec h a, refFind_composite_eq_compFind re parts hop
     (fun x hx => ⟨hqc x hx, ascii x hx, repOK x hx⟩) hparts h a]
 
